@@ -3,6 +3,8 @@ CONSTANTS KnownDevs = {}
 INVARIANTS
   C09_QerValuesAsSignalled
   C09_SessionQerSound
+  C09_Up4PeakRatesAsSignalled
+  Up4Envelope
   InEnvelope
   EnvDistinctMatchKeys
 POSTCONDITION TraceAccepted
